@@ -2,7 +2,7 @@
    triplet scatter (COO accumulation, the model of `result[r, c] += v` / scipy coo->csr duplicate summation),
    3-vectors.  Everything is parametric in the carrier and its operations so that the same definitions are
    evaluated over exact rationals (correspondence) and reasoned about over any commutative ring (proofs). *)
-From Coq Require Import List Arith Bool.
+From Coq Require Import List Arith Bool Ring_theory.
 Import ListNotations.
 
 Section Defs.
@@ -20,7 +20,7 @@ Definition sumn (n : nat) (f : nat -> A) : A := sumf f (seq 0 n).
 Definition delta (a b : nat) : A := if Nat.eqb a b then r1 else r0.
 
 (* COO triplets *)
-Definition trip : Type := (nat * nat * A)%type.
+Local Notation trip := (nat * nat * A)%type.
 Definition t_row (t : trip) : nat := fst (fst t).
 Definition t_col (t : trip) : nat := snd (fst t).
 Definition t_val (t : trip) : A := snd t.
@@ -63,6 +63,18 @@ Definition mat32 : Type := (vec3 * vec3)%type.
 Definition m32_apply (M : mat32) (u v : A) : vec3 := vadd (vscal u (fst M)) (vscal v (snd M)).
 
 End Defs.
+
+(* the operations of the coefficient ring, packaged (models take one [ops] argument) *)
+Record ops (A : Type) : Type := mk_ops {
+  o0 : A; o1 : A; oadd : A -> A -> A; omul : A -> A -> A; osub : A -> A -> A; oopp : A -> A; oinv : A -> A }.
+Arguments o0 {A} o. Arguments o1 {A} o. Arguments oadd {A} o. Arguments omul {A} o.
+Arguments osub {A} o. Arguments oopp {A} o. Arguments oinv {A} o.
+Arguments mk_ops {A}.
+
+Class IsRing {A : Type} (RO : ops A) : Prop :=
+  is_ring : ring_theory (o0 RO) (o1 RO) (oadd RO) (omul RO) (osub RO) (oopp RO) (@eq A).
+
+Notation trip A := (nat * nat * A)%type (only parsing).
 
 Arguments sumf {A} r0 radd {X} f l.
 Arguments sumn {A} r0 radd n f.
